@@ -51,6 +51,12 @@ func RunC05(c *Ctx) {
 	idx = e.explicitRanges(idx, true)
 	// I/O errors: a failed operation must not publish a list naming missing tables
 	idx = e.faultFamilies(idx, true, "", 2)
+	for i := 0; i < c.N(500, 20000); i++ {
+		if c.Mine(idx) {
+			e.randomFaultScenario("random+io-fault", idx, c.Seed, pctKinds, true)
+		}
+		idx++
+	}
 	kinds := []string{"add", "add", "addbig", "compactall", "autocompact", "autocompact", "clean", "close,open", "reopen", "compactexpiry", "addmulti", "cr01", "cr12", "cr23"}
 	n := c.N(2000, 60000)
 	for i := 0; i < n; i++ {
@@ -99,6 +105,8 @@ func RunC08(c *Ctx) {
 			idx++
 		}
 	}
+	// I/O errors on lock files inside another process's lock windows
+	idx = e.faultPauseFamilies(idx)
 	// crash of a lock holder followed by other writers
 	for ci, cr := range [][2]string{{"add", "add,compactall"}, {"compactall", "add,clean"}, {"autocompact", "compactall,add"}} {
 		for ri, rec := range trecs {
@@ -185,7 +193,7 @@ func (e *engRunner) faultSweep(family string, idx int, gcfg gen.Cfg, rec eng.Rec
 		}
 		return &eng.Scenario{Name: name, GCfg: gcfg, Init: rec,
 			Scripts: [][]eng.Call{append([]eng.Call{{Kind: "open"}}, ts.mkCalls(aDesc)...), append([]eng.Call{{Kind: "open"}}, ts.mkCalls(bDesc)...)},
-			Policy:  &eng.Seq{}, FaultProc: 0, FaultAt: k, CheckDirEvery: every}
+			Policy:  &eng.Seq{}, FaultProc: 0, FaultAt: k, CheckDirEvery: every, HookReads: !every}
 	}
 	res := e.run(mk(0), family, idx)
 	if res.SetupErr != nil || res.Aborted {
@@ -216,6 +224,75 @@ func (e *engRunner) faultSweep(family string, idx int, gcfg gen.Cfg, rec eng.Rec
 		r.Nontrivial(rep.Hash("fault", family, gcfg.String(), rec.String(), aDesc, bDesc, fmt.Sprint(k)))
 	}
 	return points
+}
+
+// faultPauseSweep: process F=[fDesc] takes an injected I/O error at its operation k while
+// process B=[bDesc] is parked before its j-th operation (for every j): the error paths of F
+// run inside every window of B - in particular while B holds tables.list.lock or table
+// locks. k ranges over F's operations on lock files and its renames (quick) or over all
+// its operations (thorough).
+func (e *engRunner) faultPauseSweep(family string, idx int, gcfg gen.Cfg, rec eng.Recipe, fDesc, bDesc string) int {
+	c := e.c
+	mk := func(k, j int) (*eng.Scenario, *eng.Sweep1) {
+		ts := newTxnSource(gen.Mix(c.Seed, int64(idx)*1000+37), gcfg.HashSize())
+		pol := &eng.Sweep1{A: 1, K: j}
+		return &eng.Scenario{Name: fmt.Sprintf("F=[%s] takes an I/O error at its operation %d while B=[%s] is parked before its operation %d", fDesc, k, bDesc, j), GCfg: gcfg, Init: rec,
+			Scripts: [][]eng.Call{ts.mkCalls(fDesc), ts.mkCalls(bDesc)}, Policy: pol, PreOpen: true, SkipTmpWrites: true, FaultProc: 0, FaultAt: k}, pol
+	}
+	// F alone, to learn its operations
+	sc, _ := mk(0, 1<<30)
+	sc.Policy = &eng.Seq{}
+	res := e.run(sc, family, idx)
+	if res.SetupErr != nil || res.Aborted {
+		return 0
+	}
+	var ks []int
+	for _, op := range res.W.S.Trace {
+		if op.Proc != 0 {
+			continue
+		}
+		cls := vos.PathClass(op.Path)
+		lockOp := (cls == "list.lock" || cls == "ref.lock") && (op.Kind == "create" || op.Kind == "write" || op.Kind == "close")
+		if c.Thorough() || lockOp || op.Kind == "rename" {
+			ks = append(ks, op.N)
+		}
+	}
+	n := 0
+	for _, k := range ks {
+		for j := 1; j < 200; j++ {
+			sc, pol := mk(k, j)
+			res := e.run(sc, family, idx)
+			n++
+			if res.SetupErr != nil || !pol.Paused {
+				break
+			}
+			if res.Procs[0].FaultFired != nil {
+				c.Rep.Count("io_faults_injected", 1)
+				op := res.Procs[0].FaultFired
+				c.Rep.SetAdd("io_fault_sites", op.Kind+"|"+vos.PathClass(op.Path)+"|"+op.Site+"|in "+op.Call)
+			}
+		}
+	}
+	return n
+}
+
+// faultPauseFamilies: the (faulting call, parked call) pairs used by C04 and C08.
+func (e *engRunner) faultPauseFamilies(idx int) int {
+	c := e.c
+	fs := []string{"compactall", "autocompact", "add", "cr01", "clean", "compactexpiry"}
+	bs := []string{"add", "compactall", "autocompact"}
+	for fi, f := range fs {
+		for bi, b := range bs {
+			for ri, rec := range []eng.Recipe{{0, 0}, {60, 0, 0}, {0, 0, 0, 0}} {
+				use := c.Thorough() || (fi+bi+ri)%3 == 0
+				if use && c.Mine(idx) {
+					e.faultPauseSweep("io-fault-inside-window-sweep", idx, engCfg(fi+bi+ri), rec, f, b)
+				}
+				idx++
+			}
+		}
+	}
+	return idx
 }
 
 // faultFamilies: every filesystem operation of every call kind fails once (quick tier:
@@ -450,6 +527,12 @@ func RunC16(c *Ctx) {
 		}
 	}
 	idx = e.faultFamilies(idx, false, ",clean", 2)
+	for i := 0; i < c.N(800, 40000); i++ {
+		if c.Mine(idx) {
+			e.randomFaultScenario("random+io-fault", idx, c.Seed, pctKinds, false)
+		}
+		idx++
+	}
 	n := c.N(2000, 100000)
 	for i := 0; i < n; i++ {
 		if c.Mine(idx) {
